@@ -77,6 +77,54 @@ class Instance:
         vecs, complete = walk_vectors(self.H, cap, self.hstarts, self.hends, limit=limit, max_len=40)
         return vecs, complete
 
+    def model_caps(self, model):
+        """The model's own per-edge repetition caps (edge_upper_bounds), re-keyed to the oracle-level edges."""
+        ub = getattr(model, "edge_upper_bounds", None)
+        if not isinstance(ub, dict):
+            return None
+        caps = {}
+        if self.node_mode:
+            back = {}
+            for v, (a, b) in ((v, self.ne[v]) for v in self.G.nodes()):
+                back[str(v) + ".0"], back[str(v) + ".1"] = a, b
+            for (a, b), c in ub.items():
+                if a in back and b in back:
+                    caps[(back[a], back[b])] = c
+        else:
+            for (a, b), c in ub.items():
+                if self.H.has_edge(a, b):
+                    caps[(a, b)] = c
+        if set(caps) != set(self.H.edges()):
+            return None
+        return caps
+
+    def cap_explains_gap(self, model, ref_desc, best_of, obj_re, tol):
+        """Does the model's own repetition cap (edge_upper_bounds) account for a sub-optimal answer?
+        False: the reference solution respects the caps, or something within the caps beats the returned solution.
+        True: the reference needs a repetition above the cap on some edge and the complete family of walks within
+        the caps contains nothing better than what the model returned. None: the reference exceeds the caps but the
+        capped family could not be enumerated completely."""
+        caps = self.model_caps(model)
+        if caps is None or not isinstance(ref_desc, list) or not ref_desc:
+            return False
+        try:
+            mults = [d if isinstance(d, dict) else self.mult_of(list(d)) for d in ref_desc]
+        except Exception:
+            return False
+        if not any(m > caps.get(e, 0) for d in mults for e, m in d.items()):
+            return False
+        icaps = {e: int(c) for e, c in caps.items()}
+        if sum(icaps.values()) > 60:
+            return None
+        vecs, complete = walk_vectors(self.H, icaps, self.hstarts, self.hends, limit=400, max_len=80)
+        vecs = [v for v in vecs if sum(v.values()) > 0]
+        if not complete:
+            return None
+        best, complete = best_of(vecs) if vecs else (None, True)
+        if best is not None and best < obj_re - tol:
+            return False
+        return True if complete else None
+
     def route_len_factor(self, mult_counter, ranges, factors):
         """Path length as the DAG model defines it: number of edges of the route plus the two synthetic edges."""
         if not factors:
